@@ -835,6 +835,18 @@ def k11(ctx):
         ctx.check(m0.group(2) == m1.group(2), "necessity-own-class:" + m0.group(2), "a shared slot is traced back through %s.m and looked up among the slots of %s's class" % (m0.group(2), m0.group(2)),
                   "disassociation_necessary traces a shared slot back through the %s side's map but looks it up among the slots of the %s side's class: the test answers for the wrong class, so a proof that still associates redundant slots is passed on (the kernel rejects a later step) or every proof is needlessly re-chained" % (m1.group(2), m0.group(2)), where_of(c.body, c.bb))
     ctx.floor("slot look-ups in disassociation_necessary", n_c, 2)
+    trues = {d["bb"] for d in b.defs().get(0, []) if d["kind"] == "assign" and C.const_bool(d["rv"]) is True}
+    for c in b.all_calls():
+        if c.body is not b or not c.callee or c.callee.name != "contains" or b.blocks[c.bb]["cleanup"]:
+            continue
+        for sb in b.switch_blocks():
+            t_ = b.blocks[sb]["term"]
+            pl_ = mir.op_place(t_["discr"])
+            if pl_ is not None and not pl_["p"] and pl_["l"] == c.dest["l"]:
+                miss_e = [("e", sb, v) for v, _ in t_["cases"] if v == "0"]
+                sd_ = re.search(r"\.([lr])\.id\)", _nrm(b, b.role_of_operand(c.args[0])))
+                ctx.check(bool(trues) and bool(miss_e) and b.must_pass(miss_e, b.return_blocks(), trues), "necessity-missing-means-true:%s" % (sd_.group(1) if sd_ else "?"), "a shared slot that is not a slot of its class makes dis-association necessary",
+                          "disassociation_necessary can find a shared slot missing from its class and still not answer true: a proof that associates redundant slots of the two sides is then passed on as it is, and a later kernel step rejects it", where_of(b, sb))
     ctx.check(sides == {"l", "r"}, "necessity-both-sides", "both sides of the equation are examined", "disassociation_necessary examines only the %s side" % sorted(sides), where_of(b))
     its = [l for l in C.iterator_loops(b)]
     shared = [l for l in its if "bitand(slots(" in _nrm(b, l[1]) and ".l)" in _nrm(b, l[1]) and ".r)" in _nrm(b, l[1])]
@@ -942,6 +954,42 @@ def k12(ctx):
         ctx.check(w in got, "transitivity-asserts:" + "=".join(sorted(w)), "TransitivityProof::check asserts " + txt,
                   "TransitivityProof::check signs without asserting %s (asserted: %s): a chain x ; y whose middle terms differ, or whose ends are not the goal's, is accepted as a proof of the goal" % (txt, sorted("=".join(sorted(g)) for g in got)), where_of(b))
 
+    # ... and how the two renamings are found (a kernel that cannot find them panics on a valid chain: the explanation call
+    # then aborts for an equality that holds): theta1 starts from x.l -> goal.l, theta2 from y.r -> goal.r, each is completed
+    # through the middle terms by the other (x.r^-1 ; y.l ; theta2  and  y.l^-1 ; x.r ; theta1), slots of a premise that remain
+    # unnamed get fresh names, and theta2 is completed once more after theta1 was filled
+    inits = [(_nrm(b, b.role_of_operand(c.args[0])), _nrm(b, b.role_of_operand(c.args[1]))) for c in b.calls if c.callee and c.callee.name == "compose_partial" and not b.blocks[c.bb]["cleanup"]]
+    ctx.check(("inverse(self.0.l.m)", "p2.l.m") in inits and ("inverse(self.1.r.m)", "p2.r.m") in inits, "transitivity-renaming-seeds", "theta1 = x.l.m^-1 ; goal.l.m and theta2 = y.r.m^-1 ; goal.r.m (partial compositions)",
+              "TransitivityProof::check seeds its two renamings with %s: they must be compose_partial(inverse(x.l.m), goal.l.m) and compose_partial(inverse(y.r.m), goal.r.m) — partial, because a premise may mention slots the goal does not" % inits, where_of(b))
+    chains = []
+    for cl in b.closures:
+        for c in cl.calls:
+            if c.callee and c.callee.name == "try_union" and not cl.blocks[c.bb]["cleanup"]:
+                chains.append(role_str(strip_role(cl.role_of_operand(c.args[1])), 12))
+    def chain_ok(a, bside):
+        return any(re.search(r"compose_partial\(compose_partial\(inverse\(.*%s\.m\), .*%s\.m\), " % (a, bside), ch) for ch in chains)
+    ctx.check(chain_ok("0\\)*\\.r", "1\\)*\\.l") and chain_ok("1\\)*\\.l", "0\\)*\\.r"), "transitivity-renaming-completion", "each renaming is completed through the middle terms: x.r^-1 ; y.l ; theta2 and y.l^-1 ; x.r ; theta1",
+              "TransitivityProof::check completes its renamings with %s: theta1 gets x.r.m^-1 ; y.l.m ; theta2 and theta2 gets y.l.m^-1 ; x.r.m ; theta1 (partial compositions, unioned into what is known)" % [c_[:90] for c_ in chains], where_of(b))
+    recs = [c for c in b.calls if c.callee and c.callee.name in ("call", "call_mut", "call_once") and not b.blocks[c.bb]["cleanup"]]
+    fills = [l for l in C.iterator_loops(b) if "slots(self." in _nrm(b, l[1])]
+    okf = len(fills) == 2 and all(C.loop_exhaustive(b, l) for l in fills)
+    for l in fills:
+        body_ = b.reach(l[3], avoid=l[2])
+        ins_ = [c for c in b.calls if c.bb in body_ and c.callee and c.callee.name == "insert" and not b.blocks[c.bb]["cleanup"] and _nrm(b, b.role_of_operand(c.args[2])) == "fresh()"]
+        present = []
+        for sb in b.switch_blocks():
+            if sb in body_:
+                r_ = strip_role(b.role_of_operand(b.blocks[sb]["term"]["discr"]))
+                if isinstance(r_, tuple) and r_[0] == "call" and r_[1] == "contains_key":
+                    t_ = b.blocks[sb]["term"]
+                    present += [("e", sb, "otherwise")] if any(v == "0" for v, _ in t_["cases"]) else [("e", sb, "1")]
+        okf = okf and bool(ins_) and b.must_pass(l[3], [l[0]], {c.bb for c in ins_} | set(present))
+    ctx.check(okf, "transitivity-renaming-filled", "every slot of either premise that the renamings leave unnamed gets a fresh name", "TransitivityProof::check no longer gives every unnamed slot of both premises a fresh name (an iteration can pass without naming the slot): applying the renaming then fails on a valid chain", where_of(b))
+    if len(fills) == 2 and recs:
+        first_fill = min(l[0] for l in fills)
+        second_fill = max(l[0] for l in fills)
+        between = [c for c in recs if c.bb in b.reach([x for l in fills if l[0] == first_fill for x in l[2]]) and second_fill in b.reach(b.after(c.bb))]
+        ctx.check(bool(between), "transitivity-renaming-recompleted", "theta2 is completed again after theta1 was filled with fresh names", "TransitivityProof::check does not complete theta2 again after theta1 got its fresh names: the middle terms then disagree on exactly those slots and a valid chain is rejected", where_of(b))
     # congruence
     b = kernel("CongruenceProof")
     eqs = []
@@ -1139,6 +1187,15 @@ def k14(ctx):
                   "associate_necessaries inserts (%s -> %s) on the left and (%s -> %s) on the right: the left key must be the open slot x itself, the right key goal_associations[x], both mapped to one fresh slot" % (kl[-50:], vl, kr[-70:], vr), where_of(b, cr_.bb))
     else:
         ctx.bad("reassociate:ties-associated-slots", "associate_necessaries no longer extends both sides of the sub-goal (found inserts on: %s)" % sorted(sides), where_of(b))
+    # which slots get tied: those the goal associates and the proof does not yet (difference, in that order), among the slots
+    # that are redundant in the LEFT class (syntactic slots minus class slots)
+    subs = [(role_str(strip_role(b.role_of_operand(c.args[0])), 6), role_str(strip_role(b.role_of_operand(c.args[1])), 6)) for c in b.calls if c.callee and c.callee.name == "sub" and not b.blocks[c.bb]["cleanup"]]
+    ok_open = any(a_.startswith("keys(compose_partial(goal.l.m") and b_.startswith("keys(compose_partial(") and "goal" not in b_ for a_, b_ in subs)
+    ok_red = any(a_.startswith("syn_slots(self") and b_.startswith("slots(self") and a_.endswith(".l.id)") and b_.endswith(".l.id)") for a_, b_ in subs)
+    ctx.check(ok_open, "reassociate:open-associations", "open associations = keys(goal associations) - keys(associations the proof already has)", "associate_necessaries computes the open associations as %s" % [x for x in subs if "keys(" in x[0]], where_of(b))
+    ctx.check(ok_red, "reassociate:left-redundant-slots", "candidates are the left class's syntactic slots that are not class slots", "associate_necessaries computes the redundant slots of the left class as %s" % [x for x in subs if "slots(self" in x[0] or "slots(self" in x[1]], where_of(b))
+    cur = [c for c in b.calls if c.callee and c.callee.name in ("compose_partial", "compose", "compose_fresh") and not b.blocks[c.bb]["cleanup"] and not _nrm(b, b.role_of_operand(c.args[0])).startswith("p2.")]
+    ctx.check(bool(cur) and all(c.callee.name == "compose_partial" for c in cur), "reassociate:current-associations-partial", "the associations the proof already has are a PARTIAL composition (slots of one side that the other lacks are simply not associated)", "associate_necessaries composes the proof's two maps with %s: an invented image for an un-associated slot counts as 'already associated' and the slot is never tied" % sorted({c.callee.name for c in cur}), where_of(b))
     chk = [c for c in b.calls if c.callee and c.callee.name == "check" and "TransitivityProof" in (c.callee.impl_self or "") and not b.blocks[c.bb]["cleanup"]]
     okl = any(_nrm(b, b.role_of_operand(c.args[1])) == "p2" for c in chk)
     ctx.check(okl, "reassociate:final-goal", "the last transitivity step is checked against the goal", "associate_necessaries never asks the kernel for its goal", where_of(b))
